@@ -324,7 +324,7 @@ func (g *Gen) intExpr(env []binding, d int) r.Val {
 			lam := r.L(sym("lambda"), r.L(sym("n")), r.L(sym("setq"), sym(a), r.L(sym("+"), sym(a), sym("n"))), g.mark(sym(a)))
 			outer := with(env, binding{a, TInt})
 			inner := with(outer, binding{kf, TFun})
-			body := []r.Val{r.L(sym("+"), r.L(sym("funcall"), sym(kf), g.Expr(TInt, inner, d+1)), r.L(sym("*"), int64(100), sym(a)), r.L(sym("funcall"), sym(kf), g.lit()))}
+			body := []r.Val{r.L(sym("+"), r.L(sym("funcall"), sym(kf), g.Expr(TInt, inner, d+1)), sym(a), r.L(sym("funcall"), sym(kf), g.lit()))}
 			var form r.Val
 			switch k {
 			case 1:
